@@ -255,7 +255,7 @@ Definition set_presp (sc : scenario) (r : presp) : scenario :=
 
 Lemma discover_nil_pm sc : (exists e, discover PMNil sc = DErr e) \/ discover PMNil sc = DNone.
 Proof.
-  unfold discover. destruct (s_pattr sc); try (left; eexists; reflexivity);
+  unfold discover, discover_gen. destruct (s_pattr sc); try (left; eexists; reflexivity);
     destruct (s_nonstr_crit sc); try (left; eexists; reflexivity); try (right; reflexivity).
   destruct (s_minver_bad sc); left; eexists; reflexivity.
 Qed.
@@ -264,7 +264,7 @@ Qed.
 Theorem nil_pm_plugin_irrelevant l sc r :
   process_signature l PMNil (set_presp sc r) = process_signature l PMNil sc.
 Proof.
-  unfold process_signature. cbn [set_presp s_sig].
+  unfold process_signature, process_signature_gen, presp_nil_res; fold discover. cbn [set_presp s_sig].
   destruct (s_sig sc); try reflexivity.
   assert (Hd : discover PMNil (set_presp sc r) = discover PMNil sc) by reflexivity.
   rewrite Hd. destruct (discover_nil_pm sc) as [[e E]|E]; rewrite E; [reflexivity|].
@@ -274,7 +274,7 @@ Qed.
 
 Theorem nil_pm_no_panic l sc : process_signature l PMNil sc <> PSPanic.
 Proof.
-  unfold process_signature. destruct (s_sig sc); try discriminate.
+  unfold process_signature, process_signature_gen, presp_nil_res; fold discover. destruct (s_sig sc); try discriminate.
   destruct (discover_nil_pm sc) as [[e E]|E]; rewrite E; [discriminate|].
   pose proof (native_no_panic l sc []) as Hn.
   destruct (native l sc []); try congruence; try discriminate.
@@ -360,7 +360,6 @@ Proof. repeat split. Qed.
 Example ex_nil_pm :
   let sc := sc_plugin PRNil in
   s_sig sc = SigOK /\ s_pattr sc = PName /\ s_nonstr_crit sc = false /\ s_minver_bad sc = false /\
-  sc_wf sc = false /\
   exists o, model (i_base EVerify (v_strict PMNil) VLib sc) = ORet false None [Some o] (Some XInconclusive) /\
             oc_err o = Some XInconclusive.
 Proof. repeat split. eexists; split; reflexivity. Qed.
